@@ -15,10 +15,11 @@ from concurrent.futures import ThreadPoolExecutor
 
 ROOT = os.path.dirname(os.path.dirname(os.path.abspath(__file__)))
 COQ = os.path.join(ROOT, "coq")
-HARNESS = os.path.join(ROOT, "harness")
+HARNESS = os.environ.get("VERIF_HARNESS_DIR") or os.path.join(ROOT, "harness")
 HARNESS_BIN = os.path.join(HARNESS, "target", "release", "rlharness")
 REPO = os.environ.get("VERIF_REPO", "/repo")
-EVID = os.path.join(ROOT, "evidence")
+EVID = os.environ.get("VERIF_EVID_DIR") or os.path.join(ROOT, "evidence")
+REPLAYS = os.environ.get("VERIF_REPLAY_DIR") or os.path.join(ROOT, "replays")
 WORK = os.path.join(ROOT, ".work")
 NCPU = min(16, os.cpu_count() or 4)
 
@@ -335,7 +336,7 @@ class Ctx:
         shutil.rmtree(self.work, ignore_errors=True)
         os.makedirs(self.work)
         os.makedirs(EVID, exist_ok=True)
-        os.makedirs(os.path.join(ROOT, "replays"), exist_ok=True)
+        os.makedirs(REPLAYS, exist_ok=True)
         self.evaluations = 0
         self.nontrivial = set()
         self.samples = []
@@ -411,7 +412,7 @@ class Ctx:
         rc = 0
         if nviol:
             what, replay = self.violations[0]
-            rp = os.path.join(ROOT, "replays", "%s_%s_%d.json" % (self.prop, self.tier, self.seed))
+            rp = os.path.join(REPLAYS, "%s_%s_%d.json" % (self.prop, self.tier, self.seed))
             replay = dict(replay)
             replay["property"] = self.prop
             replay["what"] = what
